@@ -23,7 +23,8 @@ def specs(rng, tier, count):
         dim = 1 + j % 3 if g == "plain" else None
         # anisotropy / rotation combinations are cycled (rotation-only first: isotropic models with angles)
         gm = [1, 0, 2, 3][(j // 3) % 4] if g == "plain" else [1, 0, 2, 3][j % 4]
-        out.append(KC.gen_spec(rng, variant=v, geo=g, dim=dim, tier=tier, mean_nonzero=(v == "Simple" and i % 2 == 0), geom_mode=gm))
+        out.append(KC.gen_spec(rng, variant=v, geo=g, dim=dim, tier=tier, mean_nonzero=(v == "Simple" and i % 2 == 0), geom_mode=gm, drift_mode=(j + 3),
+                           var_scale=([1e-10, 1e8, 1e-13][(i // 7) % 3] if i % 7 == 3 else None)))
     return out
 
 
@@ -82,6 +83,18 @@ def run(ctx, only=None):
             n = 140 if ctx.tier == "quick" else 2400
             for spec in specs(rng, ctx.tier, n):
                 one_case(ctx, drv, rng, spec, stats)
+            # auto-fitted models: the object must solve the system of its FINAL model
+            k = 0
+            for rep in range(1 if ctx.tier == "quick" else 5):
+                for geo in ("plain", "time", "latlon"):
+                    for gm in (0, 2, 3):
+                        if geo == "latlon" and gm != 3:
+                            continue
+                        for v_ in (("Ordinary", "Simple") if k % 2 == 0 else ("Universal", "Detrended")):
+                            if v_ == "Detrended":
+                                continue
+                            KC.probe_fit_variogram(ctx, rng, stats, geo, gm, v_, via_set_condition=bool(k % 3 == 1))
+                            k += 1
     finally:
         if drv:
             drv.close()
